@@ -147,3 +147,6 @@ func makeJail(base string, spec *FSSpec) error {
 	}
 	return nil
 }
+
+// MakeJail creates the jail layout under base (exported for checks that run an external process in a jail).
+func MakeJail(base string, spec *FSSpec) error { return makeJail(base, spec) }
